@@ -108,6 +108,13 @@ func genParams(t *rapid.T, label string, seq *int) map[string]string {
 		if rapid.IntRange(0, 2).Draw(t, label+k[len(k)-1:]) != 0 {
 			*seq++
 			m[k] = fmt.Sprintf("%s%d", strings.ToLower(k[len(k)-1:]), *seq)
+			// values are opaque text: a dollar sign is not a reference to anything
+			switch rapid.IntRange(0, 7).Draw(t, label+"Dollar"+k[len(k)-1:]) {
+			case 0:
+				m[k] = "$" + m[k]
+			case 1:
+				m[k] = "pa$$" + m[k] + "${HOME}"
+			}
 		}
 	}
 	return m
